@@ -25,7 +25,10 @@ EXPLANATION = (
     "R10.3 dependency order on reload: classes whose from_biopython resolves references through record.get_*() are "
     "postponed, after the classes they refer to. R10.4 the serialiser's function pairs read only keys they write. "
     "R10.5 a list of location parts sorted by coordinate is put back into strand order before a multi-part location "
-    "is built from it."
+    "is built from it. R10.6 lists of member numbers are written in member-list order and read back without ordering "
+    "or de-duplicating the number strings before they are converted (number strings do not sort numerically). "
+    "R10.7 location strings are read back with their compound operator. R10.8 (typed) an optional number decides "
+    "whether a qualifier is written by `is not None`, never by truthiness (zero is a value)."
 )
 UNDECIDED = [
     "equality of the re-read record with the original; the fixed-point claim",
